@@ -107,6 +107,12 @@ def load_case(ctx: Ctx):
         spec = case["spec"]
     else:
         spec = random_spec(case["gen"]["seed"], case["gen"].get("profile"))
+    if ctx.hostile and (spec.get("dispatcher") or {}).get("charging_search_type") == "shortest_time_to_charge":
+        # a hostile controller can strand a vehicle in the queue of a plug it cannot use (DESIGN 6); the
+        # shortest-time ranking then simulates that vehicle charging on that plug and raises. That is a
+        # consequence of the controller's instruction, not of any property here: hostile runs keep the default ranking.
+        spec = dict(spec)
+        spec["dispatcher"] = dict(spec["dispatcher"], charging_search_type="nearest_shortest_queue")
     ctx.spec = spec
     ctx.workdir = Path(tempfile.mkdtemp(prefix="case_", dir=scratch_base()))
     yaml_path = write_scenario(spec, ctx.workdir)
